@@ -49,6 +49,7 @@ inductive V
   | fromWords (n : Nat) (ws : List Nat)
   | ofKmer (k : Nat) (s : S)
   | cloneOf (v : V)
+  | fromBits (off : Nat) (v : V)
 inductive S
   | val (v : V)
   | sl (f : Seq.RangeForm) (a b : Nat) (s : S)
@@ -184,6 +185,7 @@ partial def parseVKw (k : String) : P V := do
     pure (.fromWords n ws)
   | "ofkmer" => let k ← num; let s ← parseS; pure (.ofKmer k s)
   | "clone" => pure (.cloneOf (← parseV))
+  | "frombits" => let off ← num; let v ← parseV; pure (.fromBits off v)
   | _ => throw s!"bad value keyword {k}"
 partial def parseV : P V := do
   let k ← next
@@ -258,6 +260,7 @@ partial def evalV (x : Ctx) : V → R Bits
     pure (Seq.extend x.c [] ss)
   | .trim bytes => liftRes (Seq.trim x.c bytes)
   | .cloneOf v => evalV x v
+  | .fromBits _ v => evalV x v
   | .inPlace u v => do let bs ← evalV x v; applyUn x u bs
   | .toOwned u v => do let bs ← evalV x v; applyUn x u bs
   | .toSlice u s => do
@@ -605,6 +608,47 @@ def query (x : Ctx) (q : String) : Q String := do
     let a ← qlift parseS; let b ← qlift parseS
     let l ← qr (evalS x a); let r ← qr (evalS x b)
     if l == r then pure s!"eq:true hash:{boolStr (Seq.hashEvents c l == Seq.hashEvents c r)}" else pure "eq:false"
+  | "serdert" => do
+    let v ← qlift parseV; let bs ← qr (evalV x v)
+    let ok := match Serde.de (Serde.ser bs) with | .ok b => b == bs | .error _ => false
+    pure s!"{showS x bs} {boolStr ok} {boolStr ok}"
+  | "adapt" => do
+    let kind ← qlift next
+    let w ← qlift num
+    let ad ← qlift next
+    let arg ← qlift num
+    let s ← qlift parseS; let bs ← qr (evalS x s)
+    let stepBy {α} (k : Nat) (l : List α) : List α :=
+      (l.zipIdx.filter fun (_, i) => i % (max k 1) == 0).map (·.1)
+    let apply {α} (l : List α) : Sum (List α) Nat :=
+      match ad with
+      | "nth" => .inl (l[arg]?).toList
+      | "skip" => .inl (l.drop arg)
+      | "stepby" => .inl (stepBy arg l)
+      | "last" => .inl l.getLast?.toList
+      | "take" => .inl (l.take arg)
+      | "nthnext" => .inl (l.drop (arg + 1))
+      | "count" => .inr l.length
+      | _ => .inl []
+    match kind with
+    | "windows" => do
+      let l ← qres (seqRes (Iter.windows x.p c bs w))
+      pure (match apply l with | .inl r => slicesStr c r | .inr n => toString n)
+    | "chunks" => do
+      let l ← qres (seqRes (Iter.chunks x.p c bs w))
+      pure (match apply l with | .inl r => slicesStr c r | .inr n => toString n)
+    | "iter" => do
+      let l ← qres (seqRes (Iter.iter x.p c bs))
+      pure (match apply l with | .inl r => codesStr r | .inr n => toString n)
+    | "reviter" => do
+      let l ← qres (seqRes (Iter.revIter x.p c bs))
+      pure (match apply l with | .inl r => codesStr r | .inr n => toString n)
+    | "kmers" => do
+      if w = 0 ∨ w > 64 then throw .unsup
+      if w * c.width > 64 then throw .unsup
+      let l ← qres (seqRes (Kmer.kmers x.p c w bs))
+      pure (match apply l with | .inl r => natsStr r | .inr n => toString n)
+    | _ => throw (.badOp "adapt kind")
   | "mapget" => do
     let n ← qlift num
     let mut keys : List Bits := []
